@@ -43,6 +43,7 @@ func runC05(p *load.Program, r *core.Report) {
 	r.Floor("C05p.T3", 6)
 	r.Floor("C05m.T3", 3)
 	c05Reasons(a, r)
+	c05ReasonForwarded(a, r)
 	c05ExitArms(a, r)
 	c05Panic(a, r)
 	c05Recheck(a, r)
@@ -309,11 +310,32 @@ func c05Reasons(a *Anchors, r *core.Report) {
 			case root(f).Name() == "Kill" || (f.Parent() != nil && root(f).Name() == "Kill"):
 				want = "global:TerminateReasonKill"
 			}
+			// meta handler: the reason is what a handler returned or the reason carried by the exit
+			// message (the recover closure's constant shares the variable); nothing else
+			metaProblem := ""
+			if f == a.MetaLoop {
+				have := map[string]bool{}
+				for _, o := range strings.Split(first, "+") {
+					have[o] = true
+				}
+				for _, need := range []string{"call:HandleMessage", "call:HandleCall", "field:Message"} {
+					if !have[need] {
+						metaProblem += "origin " + need + " is missing; "
+					}
+					delete(have, need)
+				}
+				delete(have, "global:TerminateReasonPanic")
+				for o := range have {
+					metaProblem += "unexpected origin " + o + "; "
+				}
+			}
 			switch {
 			case !same:
 				r.Bad(rule, key, fn, pos, inst, "different origins: "+strings.Join(origins, ", ")+" — observers and the callback would see different reasons")
 			case want != "" && !strings.Contains(want, first):
 				r.Bad(rule, key, fn, pos, inst, "reason is "+first+", expected "+want+" on this path")
+			case metaProblem != "":
+				r.Bad(rule, key, fn, pos, inst, "meta handler teardown: "+metaProblem+"the reason must be a handler's result or the reason of the exit message")
 			case strings.Contains(first, "?"):
 				r.Unk(rule, key, fn, pos, inst, "cannot determine the origin of the reason: "+strings.Join(origins, ", "))
 			default:
@@ -322,6 +344,71 @@ func c05Reasons(a *Anchors, r *core.Report) {
 		}
 	}
 	// process: unregisterProcess and ProcessTerminate in Kill are in different functions (closure) — checked above separately with want=Kill.
+}
+
+// c05ReasonForwarded: T7 — the functions that release a process's identities hand the reason they
+// were given to every fan-out they start (links, monitors, events, application): the observers'
+// reason is the process's reason.
+func c05ReasonForwarded(a *Anchors, r *core.Report) {
+	rule := "C05.T7 reason-forwarded"
+	r.Floor(rule, 6)
+	for _, name := range []string{"unregisterProcess", "unregisterSpawnName"} {
+		f := a.P.Func("node", a.NodeT.Obj().Name(), name)
+		if f == nil {
+			r.Unk(rule, "C05.T7|"+name, "", "", name+" found", "not found")
+			continue
+		}
+		par := paramOfType(f, "error", 0)
+		if par == nil {
+			r.Unk(rule, "C05.T7|"+name, fname(f), a.P.Pos(f.Pos()), name+" has a reason parameter", "no error parameter")
+			continue
+		}
+		seq := map[string]int{}
+		for _, g := range family(f) {
+			eachInstr(g, func(in ssa.Instruction) {
+				cc := callCommon(in)
+				if cc == nil {
+					return
+				}
+				cn := calleeName(cc)
+				if !strings.HasPrefix(cn, "RouteTerminate") && cn != "terminate" {
+					return
+				}
+				last := cc.Args[len(cc.Args)-1]
+				if last.Type().String() != "error" {
+					return
+				}
+				seq[cn]++
+				key := fmt.Sprintf("C05.T7|%s|%s#%d", name, cn, seq[cn])
+				inst := "the fan-out is given the reason the process terminated with"
+				v := last
+				if fv, ok := v.(*ssa.FreeVar); ok {
+					if b := resolveFreeVar(fv); b != nil {
+						v = b
+					}
+				}
+				ok := isParamValue(v, par) || canon(v) == ssa.Value(par)
+				if ld, isLd := v.(*ssa.UnOp); isLd && !ok {
+					if fv, isFv := ld.X.(*ssa.FreeVar); isFv {
+						if b := resolveFreeVar(fv); b != nil {
+							if al, isAl := b.(*ssa.Alloc); isAl {
+								for _, rf := range *al.Referrers() {
+									if st, isSt := rf.(*ssa.Store); isSt && st.Addr == ssa.Value(al) && st.Val == ssa.Value(par) {
+										ok = true
+									}
+								}
+							}
+						}
+					}
+				}
+				if ok {
+					r.OK(rule, key, fname(g), a.P.Pos(in.Pos()), inst, cn+"(…, reason)")
+				} else {
+					r.Bad(rule, key, fname(g), a.P.Pos(in.Pos()), inst, cn+" is given "+reasonOrigin(last, 0)+" instead of the reason parameter: links and monitors see a different reason than the one the process ended with")
+				}
+			})
+		}
+	}
 }
 
 // c05ExitArms: T4
